@@ -275,6 +275,7 @@ func hC17Matrix() {
 	reqDesc := newFakeMsgDesc("p.S.GetRequest", &fakeField{name: "name", kind: protoreflect.StringKind}, &fakeField{name: "id", kind: protoreflect.StringKind},
 		&fakeField{name: "tags", kind: protoreflect.StringKind, repeated: true}, &fakeField{name: "sub", kind: protoreflect.MessageKind, msg: subDesc})
 	m := svc.addMethodIn("Get", fkUnary, 0, false, reqDesc)
+	m.out = newFakeMsgDesc("p.S.GetResponse", &fakeField{name: "result", kind: protoreflect.StringKind}, &fakeField{name: "sub", kind: protoreflect.MessageKind, msg: subDesc})
 	cfg := baseFakeConfig()
 	opts := []ServiceOption{WithTypeResolver(&fakeResolver{})}
 	protoOpt := WithTargetProtocols(ProtocolGRPC)
@@ -285,7 +286,7 @@ func hC17Matrix() {
 	services := []*Service{}
 	var lateBare *Service
 	wantErr := true
-	class := verifChoose("class", 22)
+	class := verifChoose("class", 27)
 	switch class {
 	case 0: // valid baseline
 		wantErr = false
@@ -347,6 +348,17 @@ func hC17Matrix() {
 		wantErr = false
 	case 21: // variable path going through a repeated field
 		topts = append(topts, WithRules(&annotations.HttpRule{Selector: "p.S.Get", Pattern: &annotations.HttpRule_Get{Get: "/v1/{tags.x}"}}))
+	case 22: // variable naming a message-typed field (not a scalar, not a well-known scalar wrapper)
+		topts = append(topts, WithRules(&annotations.HttpRule{Selector: "p.S.Get", Pattern: &annotations.HttpRule_Get{Get: "/v1/{sub}"}}))
+	case 23: // response_body naming a field of the response: fine
+		topts = append(topts, WithRules(&annotations.HttpRule{Selector: "p.S.Get", Pattern: &annotations.HttpRule_Get{Get: "/v1/x"}, ResponseBody: "result"}))
+		wantErr = false
+	case 24: // response_body naming a missing field
+		topts = append(topts, WithRules(&annotations.HttpRule{Selector: "p.S.Get", Pattern: &annotations.HttpRule_Get{Get: "/v1/x"}, ResponseBody: "nope"}))
+	case 25: // response_body must be a single field, not a dotted path
+		topts = append(topts, WithRules(&annotations.HttpRule{Selector: "p.S.Get", Pattern: &annotations.HttpRule_Get{Get: "/v1/x"}, ResponseBody: "sub.leaf"}))
+	case 26: // body must be a single field as well
+		topts = append(topts, WithRules(&annotations.HttpRule{Selector: "p.S.Get", Pattern: &annotations.HttpRule_Post{Post: "/v1/x"}, Body: "sub.leaf"}))
 	case 15: // invalid template / blank pattern
 		if verifChoose("blank", 2) == 1 {
 			topts = append(topts, WithRules(&annotations.HttpRule{Selector: "p.S.Get", Pattern: &annotations.HttpRule_Get{Get: ""}}))
